@@ -18,6 +18,7 @@ def run(ctx, rep):
     rep.rule("R12.5", "every acquisition of the send lock is non-blocking (re-entrant sends cannot self-deadlock)")
     rep.rule("R12.6", "the queue is only touched through single atomic list operations; the popped item is what is sent")
     rep.rule("R12.7", "the send queue is a list and the send lock a plain lock, bound once")
+    rep.rule("R12.8", "no lock of the connection is held while the send layer is entered")
     rep.assume("GIL-atomicity of single list.append / list.pop(0) / truth test of a list",
                "threading.Lock.release() on a held lock does not raise",
                "interleavings themselves are not enumerated (DESIGN section 4)")
@@ -360,3 +361,5 @@ def run(ctx, rep):
                     why = "the enqueued value is the result of brine.dump for this call"
                 rep.ob("R12.6", "Connection send layer: what is enqueued is an encoded message of the caller", ok, why, ctx.loc(a))
     K.connection_state(ctx, rep, "R12.7", ["_send_queue", "_sendlock"])
+    from . import hygiene as H
+    H.no_lock_across_send(ctx, rep, "R12.8", K.CONN, {"_send", "_send_raw", "_async_request", "async_request", "sync_request"})
